@@ -185,6 +185,9 @@ func rowsKey(rows [][]string) string {
 // RealTarget is an always-healthy HTTP server answering with a marker header.
 func RealTarget(name string) (*httptest.Server, string) {
 	s := httptest.NewServer(http.HandlerFunc(func(w http.ResponseWriter, r *http.Request) {
+		if d, err := time.ParseDuration(r.Header.Get("X-Sleep")); err == nil {
+			time.Sleep(d) // a slow request (keeps a drain of this target open)
+		}
 		w.Header().Set("X-Target", name)
 		w.Write([]byte(name))
 	}))
